@@ -116,7 +116,7 @@ package render
 //@ ensures others: forall(x, "Val", x != tw.w ==> wtotal(x) == old(wtotal(x)))
 
 // ---- rendererContext: the implementation of render.Context --------------------------
-//@ typeinv render.rendererContext: self.ctx.bindings != nil
+//@ typeinv render.rendererContext: self.ctx.bindings != nil && (self.node != nil ==> valid(self.node)) && (self.cn != nil ==> valid(self.cn))
 //@ typeinv render.nodeContext: self.bindings != nil
 
 //@ func (render.rendererContext).Bindings
